@@ -34,10 +34,10 @@ def tok_triples(names, terms_index, gap, foreign_kind=None):
 
 
 def make_cases(chk, rng, n_accept, gen_fn, configs, max_attempts=None, name_prefix="g", text_fn=None,
-               want=None, variants_fn=None):
+               want=None, variants_fn=None, subject_name="subject"):
     """Generate grammars until n_accept are accepted by the real CLI under the first
     configuration; then generate all configurations.  Returns (subject, cases)."""
-    subj = subject.Subject(chk.work)
+    subj = subject.Subject(chk.work, subject_name)
     cases = []
     attempts = 0
     max_attempts = max_attempts or n_accept * 12
